@@ -1,4 +1,188 @@
-import GcmpyModel.Model.MCMC
+import GcmpyModel.Lemmas.MCMC
+/-!
+# C11 — one accepted step of the MCMC rewiring keeps the network a GCM network of the same joint degrees
+
+Model: `Model/MCMC.lean` (`applySwap` = the application loop of `rewire` on the proposals that `swap_condition`
+stored, `suitable` = `is_edge_choice_suitable`).  Vocabulary (`Lemmas/MCMC.lean`): `WF`, `IsCorner`, `topDegree`,
+`Ok G u0 v0 e0s e1s` (= `WF G ∧ IsCorner G u0 e0s ∧ IsCorner G v0 e1s ∧ suitable … = true`).
+
+Proved here, for one step under `Ok`: `suitable_applies`, `nodes_preserved`, `wf_preserved` (with
+`no_self_loop_created`), `edge_count_preserved`, `topology_degrees_preserved`; lifted to arbitrary histories
+`Steps` in `steps_invariant`.  Motif shape: `known_finding_ids_exchanged` (the code AS WRITTEN exchanges the motif
+ids of the new edges, so the edge set carrying one id is no longer a triangle) and `fixed_step_preserves_shape`
+(the INTENDED assignment `applySwapFixed` maps every motif onto an isomorphic copy).
+
+`defaults_admissible` (constructor defaults `search_limit = 25`, `convergence_limit = 10·|E|`) is not a statement
+about the model; it is checked by the harness only.
+-/
 namespace Gcmpy.MCMC
-theorem placeholder_c11 : True := trivial
+open Gcmpy Gcmpy.Graph Gcmpy.Loaders
+
+variable {G G' : Net} {u0 v0 : Nat} {e0s e1s : List Edge}
+
+/-! ## one step -/
+
+/-- 5. under `suitable`, the pairing succeeds and no "edge already present" error is raised -/
+theorem suitable_applies (h : Ok G u0 v0 e0s e1s) : ∃ G', applySwap G u0 v0 e0s e1s = some G' := by
+  obtain ⟨A, B, F⟩ := h.facts
+  obtain ⟨ps, hps⟩ := F.pairUp_some
+  exact ⟨_, F.applySwap_eq hps⟩
+
+/-- the same for the intended attribute assignment -/
+theorem suitable_applies_fixed (h : Ok G u0 v0 e0s e1s) : ∃ G', applySwapFixed G u0 v0 e0s e1s = some G' := by
+  obtain ⟨A, B, F⟩ := h.facts
+  obtain ⟨ps, hps⟩ := F.pairUp_some
+  exact ⟨_, F.applySwapFixed_eq hps⟩
+
+/-- 1. vertex set and joint-degree annotations are untouched -/
+theorem nodes_preserved (h : Ok G u0 v0 e0s e1s) (ha : applySwap G u0 v0 e0s e1s = some G') : G'.jd = G.jd := by
+  obtain ⟨A, B, ps, F, P, _, rfl⟩ := applySwap_shape h ha
+  rfl
+
+/-- 2. the result is again a simple graph with normalised, duplicate-free keys: no self-loop, no two proposals
+    coincide, none coincides with an existing edge -/
+theorem wf_preserved (h : Ok G u0 v0 e0s e1s) (ha : applySwap G u0 v0 e0s e1s = some G') : WF G' := by
+  obtain ⟨A, B, ps, F, P, _, rfl⟩ := applySwap_shape h ha
+  exact F.wf_after _ _ P
+
+/-- 2'. in particular no self-loop is created -/
+theorem no_self_loop_created (h : Ok G u0 v0 e0s e1s) (ha : applySwap G u0 v0 e0s e1s = some G') :
+    ∀ p ∈ G'.edges, p.1.1 ≠ p.1.2 := (wf_preserved h ha).2.2
+
+/-- 2''. the reason: the incoming vertex is not a vertex of the motif it joins, while the far end of every
+    corner edge is -/
+theorem incoming_vertex_outside_motif (h : Ok G u0 v0 e0s e1s) :
+    ∃ A B, (u0 ∉ motifVertices G v0 B ∧ ∀ e ∈ e1s, e.2 ∈ motifVertices G v0 B) ∧
+           (v0 ∉ motifVertices G u0 A ∧ ∀ e ∈ e0s, e.2 ∈ motifVertices G u0 A) := by
+  obtain ⟨A, B, F⟩ := h.facts
+  refine ⟨A, B, ⟨F.nu0, ?_⟩, ⟨F.nv0, ?_⟩⟩
+  · intro e he
+    obtain ⟨h1, a, ha, hm⟩ := F.e1 e he
+    have := mem_motifVertices_of_attr ha
+    rwa [h1, hm] at this
+  · intro e he
+    obtain ⟨h1, a, ha, hm⟩ := F.e0 e he
+    have := mem_motifVertices_of_attr ha
+    rwa [h1, hm] at this
+
+/-- 3. the number of edges is preserved (the check at the end of the loop body of `rewire` never fires) -/
+theorem edge_count_preserved (h : Ok G u0 v0 e0s e1s) (ha : applySwap G u0 v0 e0s e1s = some G') :
+    G'.edges.length = G.edges.length := by
+  obtain ⟨A, B, ps, F, P, _, rfl⟩ := applySwap_shape h ha
+  exact F.length_after _ _ P
+
+/-- 4. every vertex keeps its number of edges of every topology -/
+theorem topology_degrees_preserved (h : Ok G u0 v0 e0s e1s) (ha : applySwap G u0 v0 e0s e1s = some G') :
+    ∀ v t, topDegree G' v t = topDegree G v t := by
+  obtain ⟨A, B, ps, F, P, _, rfl⟩ := applySwap_shape h ha
+  intro v t
+  exact F.degL_after _ _ P (fun _ _ => rfl) (F.top_snd P) v t
+
+/-- 1–4 for the intended attribute assignment -/
+theorem fixed_step_invariants (h : Ok G u0 v0 e0s e1s) (ha : applySwapFixed G u0 v0 e0s e1s = some G') :
+    WF G' ∧ G'.jd = G.jd ∧ G'.edges.length = G.edges.length ∧ ∀ v t, topDegree G' v t = topDegree G v t := by
+  obtain ⟨A, B, ps, F, P, _, rfl⟩ := applySwapFixed_shape h ha
+  exact ⟨F.wf_after _ _ P, rfl, F.length_after _ _ P,
+    fun v t => F.degL_after _ _ P (F.top_snd P) (fun _ _ => rfl) v t⟩
+
+/-! ## motif shape under the intended assignment -/
+
+/-- 7b. with the INTENDED assignment (`applySwapFixed`) a step maps every motif onto an isomorphic copy:
+    the keys carrying the id `A` of the left corner afterwards are exactly the images `{σ a, σ b}` of the edges
+    `{a, b}` that carried `A` before, where `σ` replaces `u0` by `v0`; symmetrically for `B` with `v0 ↦ u0`;
+    the edge set of every other id is unchanged; and `σ` is injective on the vertices of the motif because the
+    incoming vertex is not one of them (a triangle stays a triangle on three distinct vertices) -/
+theorem fixed_step_preserves_shape (h : Ok G u0 v0 e0s e1s) (ha : applySwapFixed G u0 v0 e0s e1s = some G') :
+    ∃ A B, (∀ e ∈ e0s, omid G e = some A) ∧ (∀ e ∈ e1s, omid G e = some B) ∧ A ≠ B ∧
+      (∀ k, carries G' k A ↔ ∃ a b, omid G (a, b) = some A ∧ k = normE (subst1 u0 v0 a, subst1 u0 v0 b)) ∧
+      (∀ k, carries G' k B ↔ ∃ a b, omid G (a, b) = some B ∧ k = normE (subst1 v0 u0 a, subst1 v0 u0 b)) ∧
+      (∀ m, m ≠ A → m ≠ B → ∀ k, carries G' k m ↔ carries G k m) ∧
+      (∀ x ∈ motifVertices G u0 A, ∀ y ∈ motifVertices G u0 A, subst1 u0 v0 x = subst1 u0 v0 y → x = y) ∧
+      (∀ x ∈ motifVertices G v0 B, ∀ y ∈ motifVertices G v0 B, subst1 v0 u0 x = subst1 v0 u0 y → x = y) := by
+  obtain ⟨A, B, ps, F, P, _, rfl⟩ := applySwapFixed_shape h ha
+  have hAB : A ≠ B := F.ne
+  refine ⟨A, B, fun e he => F.carries_e0 he, fun e he => F.carries_e1 he, hAB, ?_, ?_, ?_, ?_, ?_⟩
+  · intro k
+    rw [F.carries_afterFixed P k A,
+      ← shape_side F.wf F.e0 F.full0 (fun k => mem_removed_iff (e0s := e0s) (e1s := e1s))
+        (fun e he hc => hAB (carries_unique hc (F.carries_e1 he))) k]
+    simp [hAB]
+  · intro k
+    rw [F.carries_afterFixed P k B,
+      ← shape_side F.wf F.e1 F.full1 (fun k => (mem_removed_iff (e0s := e0s) (e1s := e1s)).trans Or.comm)
+        (fun e he hc => hAB (carries_unique (F.carries_e0 he) hc)) k]
+    simp [hAB.symm]
+  · intro m hmA hmB k
+    rw [F.carries_afterFixed P k m]
+    simp only [hmA, hmB, false_and, or_false]
+    constructor
+    · exact fun h => h.1
+    · intro hc
+      refine ⟨hc, ?_⟩
+      rw [mem_removed_iff]
+      rintro (⟨e, he, rfl⟩ | ⟨e, he, rfl⟩)
+      · exact hmA (carries_unique hc (F.carries_e0 he))
+      · exact hmB (carries_unique hc (F.carries_e1 he))
+  · intro x hx y hy hxy
+    exact subst1_injOn u0 v0 (fun hv => F.nv0 (hv ▸ hx)) (fun hv => F.nv0 (hv ▸ hy)) hxy
+  · intro x hx y hy hxy
+    exact subst1_injOn v0 u0 (fun hv => F.nu0 (hv ▸ hx)) (fun hv => F.nu0 (hv ▸ hy)) hxy
+
+/-! ## histories -/
+
+/-- 6. histories of the chain: reflexive–transitive closure of "a proposal with real, suitable corners was
+    evaluated with some uniform draw `r`; it was accepted and applied, or rejected (the state stutters)" -/
+inductive Steps (names : List String) (target : Target) : Net → Net → Prop
+  | refl (G : Net) : Steps names target G G
+  | step {G G' G'' : Net} (u0 v0 : Nat) (e0s e1s : List Edge) (r : Rat) :
+      Steps names target G G' → Ok G' u0 v0 e0s e1s →
+      (stepNet G' names target u0 v0 e0s e1s r).2 = some G'' → Steps names target G G''
+
+/-- after ANY number of accepted swaps the network is a simple graph on the same annotated vertices with the
+    same number of edges and the same topology degrees at every vertex -/
+theorem steps_invariant {names : List String} {target : Target} (hWF : WF G) (hs : Steps names target G G') :
+    WF G' ∧ G'.jd = G.jd ∧ G'.edges.length = G.edges.length ∧ ∀ v t, topDegree G' v t = topDegree G v t := by
+  induction hs with
+  | refl => exact ⟨hWF, rfl, rfl, fun _ _ => rfl⟩
+  | step u0 v0 e0s e1s r _ hok hstep ih =>
+    obtain ⟨h1, h2, h3, h4⟩ := ih
+    rcases stepNet_cases hstep with rfl | ha
+    · exact ⟨h1, h2, h3, h4⟩
+    · exact ⟨wf_preserved hok ha, (nodes_preserved hok ha).trans h2, (edge_count_preserved hok ha).trans h3,
+        fun v t => (topology_degrees_preserved hok ha v t).trans (h4 v t)⟩
+
+/-! ## non-vacuity: two triangles -/
+
+/-- triangles `{0,1,2}` (motif id 0) and `{3,4,5}` (motif id 1), one topology `"t"` -/
+def twoTriangles : Net :=
+  { jd := [(0, [2]), (1, [2]), (2, [2]), (3, [2]), (4, [2]), (5, [2])],
+    edges := [((0, 1), ⟨"t", 0⟩), ((0, 2), ⟨"t", 0⟩), ((1, 2), ⟨"t", 0⟩),
+              ((3, 4), ⟨"t", 1⟩), ((3, 5), ⟨"t", 1⟩), ((4, 5), ⟨"t", 1⟩)] }
+
+example : WF twoTriangles := by unfold WF; decide +kernel
+example : IsCorner twoTriangles 0 [(0, 1), (0, 2)] :=
+  ⟨by decide, by decide, 0, by decide +kernel, by decide +kernel⟩
+example : IsCorner twoTriangles 3 [(3, 4), (3, 5)] :=
+  ⟨by decide, by decide, 1, by decide +kernel, by decide +kernel⟩
+example : suitable twoTriangles 0 3 [(0, 1), (0, 2)] [(3, 4), (3, 5)] = true := by decide +kernel
+
+theorem twoTriangles_ok : Ok twoTriangles 0 3 [(0, 1), (0, 2)] [(3, 4), (3, 5)] :=
+  ⟨by unfold WF; decide +kernel,
+   ⟨by decide, by decide, 0, by decide +kernel, by decide +kernel⟩,
+   ⟨by decide, by decide, 1, by decide +kernel, by decide +kernel⟩,
+   by decide +kernel⟩
+
+/-- 7a. KNOWN FINDING, the code as written: after the swap of the corners at `0` and `3`, motif id `0` sits on
+    the edges `{(1,2), (0,5), (0,4)}` — a path, not a triangle (the ids of the new edges are exchanged) -/
+theorem known_finding_ids_exchanged :
+    (applySwap twoTriangles 0 3 [(0, 1), (0, 2)] [(3, 4), (3, 5)]).map
+      (fun G' => (G'.edges.filter fun p => p.2.mid = 0).map (·.1)) = some [(1, 2), (0, 5), (0, 4)] := by
+  decide +kernel
+
+/-- with the intended assignment the same swap turns triangle `{0,1,2}` into triangle `{3,1,2}` -/
+theorem fixed_keeps_triangle :
+    (applySwapFixed twoTriangles 0 3 [(0, 1), (0, 2)] [(3, 4), (3, 5)]).map
+      (fun G' => (G'.edges.filter fun p => p.2.mid = 0).map (·.1)) = some [(1, 2), (1, 3), (2, 3)] := by
+  decide +kernel
+
 end Gcmpy.MCMC
